@@ -1,4 +1,4 @@
-import MetadorModel.Bridge.TocFnsSchemas
+import MetadorModel.Bridge.TocFnsPaths
 import MetadorModel.Proofs.ContainerTreeOps
 /-!
 # Bridge: translated `TOCLinks` = model
@@ -222,5 +222,112 @@ theorem gen_repair_missing (e : Env) (missing : List Path) (update : Bool) :
         | error er => rfl
         | ok t2 =>
           simp only [run_getSt, run_rawGetItem, rawMove_has_dst hm, if_true]
+
+
+
+/-! ### `TOCLinks.__init__` (load loop) -/
+
+/-- what `TOCLinks.__init__` relies on: below `links/` there are schema groups holding link datasets -/
+structure LinkTreeOK (t : Tree) : Prop where
+  keys : KeysOK t
+  closed : PClosed t
+  dir : get? t linksP = none ∨ get? t linksP = some .grp
+  ep : ∀ k n, get? t (linksP ++ [k]) = some n → ∃ r, k = .ep r ∧ n = .grp
+  link : ∀ r k n, get? t (linkDir r ++ [k]) = some n → ∃ u v, k = .link u ∧ n = .ds v
+
+def setTocPath (s : St) (tp : List (Nat × Path)) : St := { s with c := { s.c with tocPath := tp } }
+
+/-- the inner fold of `loadLinks` -/
+def loadLinkF (r : SRef) (acc : List (Nat × Path)) (ln : Key × Node) : List (Nat × Path) :=
+  match ln.1 with
+  | .link u => alSet acc u (linkPath r u)
+  | _ => acc
+/-- the outer fold of `loadLinks` -/
+def loadLinkDirF (t : Tree) (acc : List (Nat × Path)) (kn : Key × Node) : List (Nat × Path) :=
+  match kn.1 with
+  | .ep r => (children t (linkDir r)).foldl (loadLinkF r) acc
+  | _ => acc
+theorem loadLinks_eq (t : Tree) : loadLinks t = (children t linksP).foldl (loadLinkDirF t) [] := rfl
+
+/-- inner loop body of `TOCLinks.__init__` -/
+def linkInitStep : Key × Path → M Unit := fun kn => do
+  let s ← getSt
+  pyAssert (isDataset s.raw kn.2)
+  let u ← Key.uuidOf kn.1
+  modC fun c => { c with tocPath := alSet c.tocPath u kn.2 }
+
+theorem linkInitStep_loop (r : SRef) : ∀ (l : List (Key × Node)) (s : St),
+    (∀ ln ∈ l, get? s.raw (linkDir r ++ [ln.1]) = some ln.2 ∧ ∃ u v, ln = (.link u, .ds v)) →
+    forEachM (l.map fun ln => (ln.1, linkDir r ++ [ln.1])) linkInitStep s
+      = (.ok (), setTocPath s (l.foldl (loadLinkF r) s.c.tocPath))
+  | [], s, _ => rfl
+  | ln :: rest, s, h => by
+    obtain ⟨hg, u, v, rfl⟩ := h ln (by simp)
+    have hg' : get? s.raw [Key.toc, Key.links, Key.ep r, Key.link u] = some (Node.ds v) := hg
+    have hstep : linkInitStep (Key.link u, linkDir r ++ [Key.link u]) s
+        = (.ok (), setTocPath s (alSet s.c.tocPath u (linkPath r u))) := by
+      simp [linkInitStep, mrun, isDataset, hg', Key.uuidOf, setTocPath, linkPath, linkDir]
+    simp only [List.map_cons, forEachM_cons, mrun, hstep]
+    rw [linkInitStep_loop r rest]
+    · simp [loadLinkF, setTocPath]
+    · intro ln' hm; exact h ln' (by simp [hm])
+
+/-- outer loop body -/
+def linkDirInitStep : Path → M Unit := fun g => do
+  let s ← getSt
+  pyAssert (isGroup s.raw g)
+  forEachM (groupItems s.raw g) linkInitStep
+
+theorem linkDirInitStep_loop (t : Tree) (hk : KeysOK t)
+    (hlink : ∀ r k n, get? t (linkDir r ++ [k]) = some n → ∃ u v, k = .link u ∧ n = .ds v) :
+    ∀ (l : List (Key × Node)) (s : St), s.raw = t →
+    (∀ kn ∈ l, get? t (linksP ++ [kn.1]) = some kn.2 ∧ ∃ r, kn = (.ep r, .grp)) →
+    forEachM (l.map fun kn => linksP ++ [kn.1]) linkDirInitStep s
+      = (.ok (), setTocPath s (l.foldl (loadLinkDirF t) s.c.tocPath))
+  | [], s, _, _ => rfl
+  | kn :: rest, s, hs, h => by
+    obtain ⟨hg, r, rfl⟩ := h kn (by simp)
+    have hstep : linkDirInitStep (linksP ++ [Key.ep r]) s
+        = (.ok (), setTocPath s ((children t (linkDir r)).foldl (loadLinkF r) s.c.tocPath)) := by
+      simp only [linkDirInitStep, mrun, isGroup, hs, hg, beq_self_eq_true, groupItems]
+      have : linksP ++ [Key.ep r] = linkDir r := rfl
+      rw [this, ← hs, linkInitStep_loop r]
+      intro ln hm
+      rw [hs] at hm ⊢
+      have hgl := (mem_children hk (k := ln.1) (n := ln.2)).mp hm
+      obtain ⟨u, v, hk', hn'⟩ := hlink r ln.1 ln.2 hgl
+      exact ⟨hgl, u, v, Prod.ext hk' hn'⟩
+    simp only [List.map_cons, forEachM_cons, mrun, hstep]
+    rw [linkDirInitStep_loop t hk hlink rest _ (by simp [setTocPath, hs]) (fun kn' hm => h kn' (by simp [hm]))]
+    simp [loadLinkDirF, setTocPath]
+
+theorem gen_links_init (s : St) (h : LinkTreeOK s.raw) :
+    TOCLinks.__init__ s = (.ok (), setTocPath s (loadLinks s.raw)) := by
+  simp only [TOCLinks.__init__, mrun]
+  rcases h.dir with hd | hd
+  · have hch : children s.raw linksP = [] := by
+      rw [List.eq_nil_iff_forall_not_mem]
+      rintro ⟨k, n⟩ hm
+      have hgk := (mem_children h.keys).mp hm
+      have hg := h.closed linksP k (by rw [hgk]; simp)
+      rw [hd] at hg; cases hg
+    simp [has, hd, loadLinks_eq, hch, setTocPath]
+  · have hhas : has s.raw linksP = true := by simp [has, hd]
+    simp only [hhas, if_true, mrun]
+    rw [run_rawRequireGroup_grp (by simpa using hd)]
+    simp only [mrun, groupValues]
+    rw [forEachM_congr linkDirInitStep]
+    · rw [show ({ raw := s.raw, c := { s.c with tocPath := [] }, next := s.next } : St) = setTocPath s [] from rfl,
+        linkDirInitStep_loop s.raw h.keys h.link (children s.raw linksP) (setTocPath s []) rfl (fun kn hm => by
+        have hg := (mem_children h.keys (k := kn.1) (n := kn.2)).mp hm
+        obtain ⟨r, hk', hn'⟩ := h.ep kn.1 kn.2 hg
+        exact ⟨hg, r, Prod.ext hk' hn'⟩)]
+      simp [loadLinks_eq, setTocPath]
+    · intro g; funext s
+      simp only [linkDirInitStep, mrun]
+      by_cases hgrp : isGroup s.raw g = true
+      · simp only [hgrp, mrun]
+        exact congrFun (forEachM_congr linkInitStep (fun _ => rfl) _) s
+      · simp [hgrp]
 
 end MetadorModel.Bridge.TocFns
